@@ -21,6 +21,10 @@ CTX = [
     # smart pointers are not in the documented table; whatever the tool prints for them, a schema it reads must already be defined
     ("Box", lambda x: ("raw", "Box<%s>" % rg.rust(x))),
     ("Arc-in-Vec", lambda x: ("raw", "Vec<std::sync::Arc<%s>>" % rg.rust(x))),
+    ("array", lambda x: ("array", x)),
+    ("array-of-array", lambda x: ("array", ("array", x))),
+    ("array-of-map-of-array", lambda x: ("array", ("hmap", rg.P("String"), ("array", x)))),
+    ("Vec-of-array", lambda x: ("vec", ("array", x))),
     ("Option-Rc", lambda x: ("raw", "Option<Rc<%s>>" % rg.rust(x))),
 ]
 
